@@ -905,11 +905,19 @@ def gen_equiv(rng, idx):
     if kind == "config":
         # A: read_config_string (one or two pieces); B: the same pieces through cv config
         two = rng.random() < 0.5
+        hdr = header(case)
+        if case.get("cb"):
+            # module-level options (here: a scripted-force procedure acting on the first variable) are given once, in the
+            # first piece, and stay in force when later pieces do not repeat them
+            hdr += "forcecb %s %s\n" % (case["cb"]["cv"], case["cb"]["force"])
+            glob += "scriptedColvarForces on\nscriptingAfterBiases %s\n" % ("on" if case["cb"]["after"] else "off")
         pieces = [glob + cvtxt, btxt] if (two and btxt) else [glob + cvtxt + btxt]
         late = rng.random() < 0.4 and len(pieces) == 2    # second piece after two steps
-        a = header(case) + "module\n"
-        b = header(case) + "module\n"
-        a += "config <<EOC\n" + pieces[0] + "EOC\n"
+        # half of the two-piece sessions are compared with the whole text read at once by the engine
+        merged = len(pieces) == 2 and not late and rng.random() < 0.5
+        a = hdr + "module\n"
+        b = hdr + "module\n"
+        a += "config <<EOC\n" + (pieces[0] + pieces[1] if merged else pieces[0]) + "EOC\n"
         b += "script " + json.dumps(["cv", "config", pieces[0]]) + "\n"
         a += "init\n"
         b += "init\n"
@@ -917,11 +925,13 @@ def gen_equiv(rng, idx):
         a += step_block(case, 0, k)
         b += step_block(case, 0, k)
         if len(pieces) == 2:
-            a += "config <<EOC\n" + pieces[1] + "EOC\n"
+            if not merged:
+                a += "config <<EOC\n" + pieces[1] + "EOC\n"
             b += "script " + json.dumps(["cv", "config", pieces[1]]) + "\n"
         a += "mark go\n" + step_block(case, k)
         b += "mark go\n" + step_block(case, k)
-        return dict(kind=kind, idx=idx, sub="two_pieces_late" if late else "two_pieces" if len(pieces) == 2 else "one_piece", scn={"A": a, "B": b}, mark="go", case=case)
+        return dict(kind=kind, idx=idx, sub=("two_pieces_late" if late else "two_pieces_vs_whole" if merged else "two_pieces" if len(pieces) == 2 else "one_piece") +
+                    (":scripted_forces" if case.get("cb") else ""), scn={"A": a, "B": b}, mark="go", case=case)
     if kind in ("load", "loadstr"):
         K = rng.randint(1, case["T"] - 2)
         cfg = "config <<EOC\n" + glob + cvtxt + btxt + "EOC\n"
